@@ -83,6 +83,7 @@ struct Knobs {
     int authenticator_pct = 0;   // the client uses enhanced authentication (broker runs 0-1 challenge rounds)
     int invalid_pub_pct = 0;     // publishes that fail validation (must be refused at once and leave no trace in quota / ids)
     int rm_change_pct = 0;       // the broker announces a different Receive Maximum (or none) on later connections
+    int suback_fail_pct = 15, suback_all_fail_pct = 5;
     int signal_pct = 0;          // per request: bound to a cancellation slot and signalled (total / partial, rarely terminal) some time after initiation
     int drop_ack_pct = 0;        // scenarios in which the broker withholds acknowledgements on a live connection for the first 30 s (only the 20 s sentry helps)
     int own_limit_pct = 0;       // the client announces a Maximum Packet Size; the broker sends messages exactly at / just below it
@@ -140,6 +141,9 @@ Scenario gen_mix(vu::Rng& rng, const Knobs& k, const std::string& family) {
     sc.bcfg.ack_delay_max = k.ack_delay_max ? (vt)rng.range(0, k.ack_delay_max) : 0;
     sc.bcfg.lose_session_pct = k.lose_session_pct;
     sc.bcfg.fail_rc_pct = k.fail_rc_pct; sc.bcfg.alt_success_rc_pct = k.alt_rc_pct; sc.bcfg.ack_props_pct = k.ack_props_pct;
+    // per-topic refusals in SUBACK/UNSUBACK, and brokers that refuse every filter (no subscription ever succeeds)
+    sc.bcfg.suback_fail_pct = k.suback_fail_pct;
+    if ((int)rng.below(100) < k.suback_all_fail_pct) sc.bcfg.suback_all_fail = true;
     sc.bcfg.suback_wrong_count_pct = k.hostile_count_pct; sc.bcfg.ack_bad_rc_pct = k.hostile_rc_pct;
     sc.net.chunking = rng.pick(std::vector<Chunking>{Chunking::whole, Chunking::whole, Chunking::bytewise, Chunking::random});
     if (rng.chance(1, 4)) sc.net.write_done_delay_max = (vt)rng.range(10 * US, 3 * MS);
@@ -301,8 +305,8 @@ Knobs knobs_for(const std::string& family) {
     else if (family == "c07-mix") { k.pubs_min = 4; k.pubs_max = 30; k.burst_pct = 80; k.rm_choices = {1, 1, 2, 3, 4, 8, 65535}; k.signal_pct = 12; k.qos_w[0] = 1; k.faults_max = 2; k.ack_delay_max = 200 * MS; k.inbound = 1; k.subs = 0; k.invalid_pub_pct = 8; k.rm_change_pct = 30; }
     else if (family == "c08-mix") { k.pubs_min = 5; k.pubs_max = 40; k.subs = 2; k.unsubs = 2; k.faults_max = 2; k.inbound = 3; k.signal_pct = 12; }
     else if (family == "c11-mix") { k.keep_alive = 2; k.faults_max = 3; k.bad_attempts_max = 3; k.pubs_max = 8; k.ack_delay_max = 500 * MS; k.suffix = 60 * SEC; }
-    else if (family == "c13-mix") { k.pubs_max = 4; k.subs = 2; k.faults_max = 3; k.lose_session_pct = 60; k.inbound = 2; k.authenticator_pct = 25; }
-    else if (family == "c14-mix") { k.pubs_max = 2; k.subs = 3; k.unsubs = 2; k.faults_max = 2; k.signal_pct = 10; }
+    else if (family == "c13-mix") { k.pubs_max = 4; k.subs = 2; k.faults_max = 3; k.lose_session_pct = 60; k.inbound = 2; k.authenticator_pct = 25; k.suback_all_fail_pct = 25; }
+    else if (family == "c14-mix") { k.pubs_max = 2; k.subs = 3; k.unsubs = 2; k.faults_max = 2; k.signal_pct = 10; k.suback_fail_pct = 30; k.suback_all_fail_pct = 10; }
     else if (family == "c14-hostile") { k.pubs_max = 2; k.subs = 3; k.unsubs = 2; k.faults_max = 1; k.inbound = 0; k.hostile_count_pct = 35; k.hostile_rc_pct = 15; }
     else if (family == "c01-hostile-rc") { k.inbound = 0; k.qos_w[0] = 0; k.qos_w[1] = 1; k.qos_w[2] = 1; k.subs = 0; k.faults_max = 1; k.hostile_rc_pct = 20; }
     return k;
